@@ -12,7 +12,7 @@ from ..paths import linear, norm_less, show
 from ..report import Report
 from ..table import fmt_val
 from .c06 import _is_method, window_shape
-from .windows import WindowSpec, loop_idioms, prunes, unverified_loops
+from .windows import WindowSpec, arg_of, loop_idioms, param_roles, prunes, unverified_loops
 from .common import HANDLE_FAILURE, SELF, attr, path_where, owned_by
 from .failure_table import failure_table
 
@@ -45,9 +45,15 @@ def run(rep: Report, prog: Program, tier: str) -> None:
     budget_shape(rep, "R10.1", prog)
     rep.floor("R10.1", 4)
     rest(rep, prog)
+    invariant(rep, prog)
 
 
-SPEC = WindowSpec("Budget._prune", lambda e: EV, lambda e: e.args[0] if e.args else None, attr(SELF, "window_s"))
+def _now_of(e: Any) -> Any:
+    fn = next((t.func for t in e.targets if t.func is not None), None)
+    return arg_of(e, param_roles(fn).get("now")) if fn is not None else (e.args[0] if e.args else None)
+
+
+SPEC = WindowSpec("Budget._prune", lambda e: EV, _now_of, attr(SELF, "window_s"))
 
 
 def budget_shape(rep: Report, rid: str, prog: Program) -> None:
@@ -222,11 +228,9 @@ def rest(rep: Report, prog: Program) -> None:
             elif not problem:
                 rep.ok("R10.3")
     init = prog.func("redress.policy.base:_BaseRetryPolicy.__init__")
-    byref = False
-    for p in engine(prog).paths(init)[:1]:
-        for e in p.stores():
-            if e.loc == attr(SELF, "budget") and e.value == ("param", "budget"):
-                byref = True
+    rets = [q for q in engine(prog).paths(init) if q.exit[0] == "return"]
+    # every constructed policy holds the caller's Budget object itself
+    byref = bool(rets) and all([e.value for e in q.stores() if e.loc == attr(SELF, "budget")] == [("param", "budget")] for q in rets)
     rep.instance("R10.3", "budget-by-reference")
     if byref:
         rep.ok("R10.3")
@@ -239,3 +243,103 @@ def rest(rep: Report, prog: Program) -> None:
                 rep.instance("R10.3", f"budget-writer|{fn.qual}")
                 rep.fail("R10.3", f"budget-writer|{fn.qual}", f"{fn.qual} re-binds `.budget`", where=fn.where(n), function=fn.qual)
     rep.floor("R10.3", 1000)
+    rep.rule("R10.3b", "a Budget assigned after construction through the sugar objects (policy.budget = shared) reaches the retry component that consults it (= C12 R12.5): sharing cannot be lost on the way")
+    from .c12 import sugar_setattr
+
+    sugar_setattr(rep, "R10.3b", prog)
+    rep.floor("R10.3b", 8)
+
+
+def invariant(rep: Report, prog: Program) -> None:
+    """R10.4 - the counting argument, machine-checked as a linear implication per path.
+
+    Inductive invariant  I: len(_events) <= max_retries.
+      base      __init__ leaves an empty deque and rejects max_retries < 0 (and window_s <= 0);
+      step      on every returning path of consume():  L_end = L_test + (appends per iteration) * (trip count),
+                where L_test = len(_events) as read by the capacity test (after the prune, which only pops);
+                I is preserved iff  max_retries - L_end >= 0  follows from the path's own literals
+                (it must be *the* granting literal) or no append happens at all.
+    Together with R10.2 (entries leave the deque only when older than the window, nothing else removes or
+    rewrites them) every grant of age < window_s is still in the deque, hence #grants in any window <= max_retries.
+    """
+    rep.rule("R10.4", "inductive invariant len(_events) <= max_retries: established by __init__ (empty deque, max_retries >= 0, window_s > 0) and preserved by every path of consume() as a linear consequence of that path's own capacity literal")
+    init = prog.func(f"{B}.__init__")
+    rep.analysed(init.qual)
+    MRP, WSP = ("param", "max_retries"), ("param", "window_s")
+    rows = {"max_retries<0": False, "window_s<=0": False, "ok": False}
+    for p in engine(prog).paths(init):
+        lits = []
+        for a, pol, _ in p.conds:
+            nf = norm_less(a, pol, integer=False) if a[0] == "cmp" and a[1] == "<" else None
+            lits.append(nf)
+        if p.exit[0] == "raise" and p.exit[1] == "ValueError" and not any(e.kind == "store" for e in p.events):
+            for nf in lits:
+                if nf and dict(nf[1]) == {MRP: -1} and nf[2] == 0 and nf[0] == ">0":
+                    rows["max_retries<0"] = True
+                if nf and dict(nf[1]) == {WSP: -1} and nf[2] == 0 and nf[0] == ">=0":
+                    rows["window_s<=0"] = True
+        elif p.exit[0] == "return":
+            st = {e.loc: e.value for e in p.stores()}
+            ev0 = st.get(EV)
+            empty = isinstance(ev0, tuple) and ev0[0] == "pure" and "deque" in str(ev0[1]) and not ev0[2]
+            if st.get(MR) == MRP and st.get(attr(SELF, "window_s")) == WSP and empty:
+                rows["ok"] = True
+    for k, v in rows.items():
+        rep.instance("R10.4", f"__init__|{k}")
+        if v:
+            rep.ok("R10.4")
+        else:
+            rep.fail("R10.4", f"__init__|{k}", f"Budget.__init__: expected row `{k}` (reject max_retries < 0 and window_s <= 0 with ValueError before any store; otherwise store both unchanged and start from an empty deque)", where=init.where(), function=init.qual)
+    fi = prog.func(f"{B}.consume")
+    paths = engine(prog).paths(fi)
+    top = engine(prog).cfgs.get(fi)
+    idioms = loop_idioms(paths, top, SPEC.window)
+    LEN = ("pure", "len", (EV,), ())
+    n = 0
+    for p in paths:
+        if p.exit[0] != "return" or (p.exit[0] == "loop"):
+            continue
+        apps = [e for e in p.events if e.kind == "call" and _is_method(e, "append") and e.recv == EV]
+        its = [e for e in p.events if e.kind == "iter" and e.value != "zero"]
+        n += 1
+        construct = "consume|" + "|".join(p.describe()[-3:])[:120]
+        rep.instance("R10.4", construct)
+        other_growth = [e for e in p.events if e.kind == "call" and not e.pure and e.recv == EV and not _is_method(e, "append") and not _is_method(e, "popleft")]
+        if other_growth:
+            rep.fail("R10.4", "consume|growth", f"Budget.consume: _events is changed by {[e.label for e in other_growth]}", where=path_where(prog, fi.qual, p), function=fi.qual, path=p.describe())
+            continue
+        if not apps:
+            rep.ok("R10.4")  # L_end <= L_test <= L_0 <= max_retries
+            continue
+        # growth = (#appends in one iteration) * trip count of the enclosing range(...) loop
+        trip = None
+        if len(its) == 1 and its[0].recv[0] == "pure" and its[0].recv[1] == "range" and len(its[0].recv[2]) == 1:
+            trip = its[0].recv[2][0]
+        if trip is None:
+            rep.fail("R10.4", "consume|growth-unknown", "Budget.consume: appends are not made by a single `for _ in range(n)` loop: growth of the window cannot be bounded", where=path_where(prog, fi.qual, p), function=fi.qual, path=p.describe())
+            continue
+        lt = linear(trip)
+        if lt is None:
+            rep.fail("R10.4", "consume|growth-nonlinear", f"Budget.consume: trip count {show(trip)} is not linear", where=path_where(prog, fi.qual, p), function=fi.qual)
+            continue
+        # goal: MR - LEN - len(apps)*trip >= 0
+        goal_c = -len(apps) * lt[0]
+        goal = {MR: Fraction(1), LEN: Fraction(-1)}
+        for k, v in lt[1].items():
+            goal[k] = goal.get(k, 0) - len(apps) * v
+        goal = {k: v for k, v in goal.items() if v != 0}
+        implied = False
+        for a, pol, _ in p.conds:
+            ni = norm_less(a, pol, integer=True) if a[0] == "cmp" and a[1] == "<" else None
+            if ni is None:
+                continue
+            rel, terms, c = ni
+            if rel == ">=0" and dict(terms) == goal and c <= goal_c:
+                implied = True  # literal: goal - (goal_c - c) >= 0 with goal_c - c >= 0
+        if implied:
+            rep.ok("R10.4")
+        else:
+            rep.fail("R10.4", "consume|invariant-not-preserved", f"Budget.consume: a granting path appends {len(apps)} x {show(trip)} entries but `len(_events) + {len(apps)}*{show(trip)} <= max_retries` does not follow from the tests on that path: the window can exceed max_retries", where=path_where(prog, fi.qual, p), function=fi.qual, path=p.describe())
+    if n < 2:
+        raise AnalysisError("R10.4: fewer than two returning paths in Budget.consume")
+    rep.floor("R10.4", 5)
